@@ -100,6 +100,10 @@ fn gen_file(rng: &mut Rng, fi: usize, idx: usize, names: &mut Vec<(String, Strin
             }
         }
         for k in ks {
+            // (blank content lines: replacing a line by an empty one is a change like any other)
+            if rng.chance(1, 6) {
+                body.push(GNode::Text(String::new()));
+            }
             body.push(GNode::Text(lang.wrap_token(&format!("c{bi}{k}"))));
         }
         if rng.chance(1, 5) && !lang.line.is_empty() {
